@@ -200,7 +200,7 @@ func c15(c *wk.Ctx) {
 	sortU32(enumIDs)
 	types := u.Types
 	idx := 0
-	perType := c.Pick(1, 6)
+	perType := c.Pick(2, 12)
 	for _, t := range types {
 		for k := 0; k < perType; k++ {
 			if c.Mine(idx) {
